@@ -8,10 +8,12 @@ import (
 	"encoding/hex"
 	"fmt"
 	"math/big"
+	"reflect"
 	"sort"
 	"strconv"
 	"strings"
 	"time"
+	"unsafe"
 
 	"github.com/hyperledger/burrow/acm"
 	"github.com/hyperledger/burrow/acm/acmstate"
@@ -42,7 +44,7 @@ type VMCase struct {
 	CalleeBal  uint64      // balance of the callee before the call
 	Extra      []VMAccount // further accounts of the pre-state (contracts the program may call)
 	UsesExt    bool
-	Heavy      bool // may legitimately exceed the watchdog (EXP with huge operands, giant allocation)
+	Heavy      bool   // may legitimately exceed the watchdog (EXP with huge operands, giant allocation)
 	Expect     string // JSON object: facts that must hold of the result by construction of the program (profile "create")
 }
 
@@ -68,7 +70,21 @@ type VMResult struct {
 	Logs    []VMLog
 	Post    string // JSON array of every account after the call
 	Detail  string
+	Mem     []int64 // final size in bytes of the memory of every frame the interpreter opened, in order of creation (the first is the top frame's; at most vmMemFrames are listed)
 }
+
+const vmMemFrames = 256
+
+// vmMemoryProvider is the interpreter's own memory provider (vm.wrappedDDMP: a 16 MiB dynamic memory inside the gas
+// bookkeeping wrapper), read out of a CVM built with default options.  The harness wraps it only to keep a reference to the
+// memory of every frame, so that the final size (what MSIZE would push) can be reported after the run (C17
+// memory_is_paid_for).  The interpreter insists on its own unexported memory type, so the provider cannot be replaced, only
+// observed; what it returns is handed on unchanged.
+var vmMemoryProvider = func() func(errors.Sink) engine.Memory {
+	cvm0 := vm.NewCVM(engine.Options{Natives: native.MustDefaultNatives()})
+	f := reflect.ValueOf(cvm0).Elem().FieldByName("options").FieldByName("MemoryProvider")
+	return reflect.NewAt(f.Type(), unsafe.Pointer(f.UnsafeAddr())).Elem().Interface().(func(errors.Sink) engine.Memory)
+}()
 
 // ---- the chain's storage convention on top of Burrow's MemoryState ----------
 // x/cvm/keeper/state.go: GetStorage of an absent slot returns 32 zero bytes,
@@ -252,7 +268,18 @@ func RunVMCase(c *VMCase) (res VMResult) {
 		Gas:    gas,
 	}
 	bc := &vmChain{height: c.Height, t: time.Unix(c.Time, 0), chainid: c.ChainID}
+	var mems []engine.Memory
+	provider := func(sink errors.Sink) engine.Memory {
+		m := vmMemoryProvider(sink)
+		if len(mems) < vmMemFrames {
+			mems = append(mems, m)
+		}
+		return m
+	}
 	finish := func() {
+		for _, m := range mems {
+			res.Mem = append(res.Mem, m.Capacity().Int64())
+		}
 		res.GasLeft = gas.String()
 		res.Storage = readStorage(st, VMCallee)
 		res.Logs = sink.logs
@@ -266,7 +293,7 @@ func RunVMCase(c *VMCase) (res VMResult) {
 			finish()
 		}
 	}()
-	cvm := vm.NewCVM(engine.Options{Natives: vmNatives})
+	cvm := vm.NewCVM(engine.Options{Natives: vmNatives, MemoryProvider: provider})
 	out, err := cvm.Execute(st, bc, sink, params, c.Code)
 	res.Outcome = vmOutcome(err)
 	if err != nil {
@@ -355,6 +382,16 @@ func VMLine(c *VMCase, r *VMResult) string {
 	b.WriteString(`]`)
 	if r.Post != "" {
 		b.WriteString(`,"post":` + r.Post)
+	}
+	if r.Mem != nil {
+		b.WriteString(`,"mem":[`)
+		for i, m := range r.Mem {
+			if i > 0 {
+				b.WriteByte(',')
+			}
+			b.WriteString(strconv.FormatInt(m, 10))
+		}
+		b.WriteString(`]`)
 	}
 	if r.Detail != "" {
 		b.WriteString(`,"detail":` + strconv.Quote(r.Detail))
